@@ -39,12 +39,35 @@ type registry struct {
 	version   int
 	// Delay bounds for discovery (index into delays, chosen per delivery)
 	MaxDelay int
+	// Manual: nothing is discovered by itself; the harness calls Deliver.
+	Manual  bool
+	manualQ map[int][]*Server
 }
 
 var delays = []time.Duration{0, time.Millisecond, 20 * time.Millisecond, 300 * time.Millisecond}
 
 func reg() *registry {
-	return simrt.Local("simzeroconf", func() any { return &registry{MaxDelay: 3} }).(*registry)
+	return simrt.Local("simzeroconf", func() any { return &registry{MaxDelay: 3, manualQ: map[int][]*Server{}} }).(*registry)
+}
+
+// SetManual switches discovery of the current run to harness-driven delivery
+// (mDNS is multicast over UDP: who hears whom, and when, is arbitrary).
+func SetManual(on bool) { reg().Manual = on }
+
+// Deliver lets the browser running on node hear the announcement of instance;
+// it reports whether such an announcement exists.
+func Deliver(node int, instance string) bool {
+	r := reg()
+	for i := len(r.announced) - 1; i >= 0; i-- {
+		s := r.announced[i]
+		if s.entry.Instance == instance && !s.down && !simrt.NodeDown(s.node) {
+			r.manualQ[node] = append(r.manualQ[node], s)
+			r.version++
+			simrt.ChanEvent()
+			return true
+		}
+	}
+	return false
 }
 
 // Server is an announced instance.
@@ -92,10 +115,20 @@ func (r *Resolver) Browse(ctx context.Context, service, domain string, entries c
 				return
 			}
 			var next *Server
-			for _, s := range rg.announced {
-				if !seen[s] && !s.down && !simrt.NodeDown(s.node) && s.entry.Service == service {
-					next = s
-					break
+			if rg.Manual {
+				// the harness decides who hears whose announcement, and when
+				q := rg.manualQ[node]
+				if len(q) > 0 {
+					next = q[0]
+					rg.manualQ[node] = q[1:]
+					delete(seen, next)
+				}
+			} else {
+				for _, s := range rg.announced {
+					if !seen[s] && !s.down && !simrt.NodeDown(s.node) && s.entry.Service == service {
+						next = s
+						break
+					}
 				}
 			}
 			if next == nil {
